@@ -149,10 +149,22 @@ def directed_names(ctx):
     return cases
 
 
+def directed_skips(ctx):
+    """runs of consecutive decorator-skipped tests (unittest 3.12.1 calls addSkip and stopTest for them without
+    startTest): each counts as one test run and one skipped"""
+    rng = ctx.rng
+    cases = []
+    for i in range(4 if ctx.quick() else 40):
+        w = worlds.gen_world(rng, n_layers=rng.choice([1, 2]), tests_per_layer=(3, 6),
+                             kinds=["skipDeco", "skipDeco", "skipDeco", "pass", "fail"], p_fault=0.0, p_write=0.0)
+        cases.append(cw.Case(w, {"verbose": rng.choice([1, 2]), "processes": rng.choice([1, 1, 2])}, "directed:skip-runs"))
+    return cases
+
+
 def gen_cases(ctx):
     rng = ctx.rng
     n = 80 if ctx.quick() else 2000
-    cases = directed_names(ctx)
+    cases = directed_names(ctx) + directed_skips(ctx)
     for i in range(n):
         w = worlds.gen_world(rng, tests_per_layer=(0, 4), p_fault=0.15, p_write=0.0, import_errors=True)
         if rng.random() < 0.3:
